@@ -108,6 +108,7 @@ structure U (α : Type) where
   energy : α
   maxEnergy : α
   revive : Bool := false
+  rprio : Int := 45          -- priority of the insert the revive effect queues (a late one: after inserted actions)
   dot : Option Int := none   -- source of the damage-over-time modifier
   freeze : Bool := false
   p2 : Bool := false
@@ -206,7 +207,7 @@ def hpSet (s : S α) (t : Int) (newR : α) (src : Int) (isDamage : Bool) : S α 
         (.hpChange t u.ratio newR isDamage)
     else if u.revive then
       emit (enqueue (emit (setUnit s { u with ratio := newR, lastAtk := if isDamage then src else u.lastAtk, life := 2 })
-        (.hpChange t u.ratio newR isDamage)) t 45 false (.revive t)) (.limbo t true)
+        (.hpChange t u.ratio newR isDamage)) t u.rprio false (.revive t)) (.limbo t true)
     else
       emit (emit (setUnit s { u with ratio := newR, lastAtk := if isDamage then src else u.lastAtk, life := 1 })
         (.hpChange t u.ratio newR isDamage)) (.limbo t false)
@@ -309,7 +310,8 @@ def resolve (cfg : Cfg) (s : S α) (sel : Sel) (src pt : Int) : List Int :=
   | .unit id => [id]
 
 def addMod (u : U α) (k : Int) (src : Int) : U α :=
-  if k == 0 then { u with revive := true }
+  if k == 0 then (if u.revive then u else { u with revive := true, rprio := 45 })
+  else if k == 7 then (if u.revive then u else { u with revive := true, rprio := 600 })
   else if k == 1 then (if u.dot.isSome then u else { u with dot := some src })
   else if k == 2 then { u with freeze := true }
   else if k == 4 then { u with bext := true }
@@ -318,7 +320,8 @@ def addMod (u : U α) (k : Int) (src : Int) : U α :=
   else { u with p2 := true }
 
 def rmMod (u : U α) (k : Int) : U α :=
-  if k == 0 then { u with revive := false }
+  if k == 0 then (if u.rprio == 45 then { u with revive := false } else u)
+  else if k == 7 then (if u.rprio == 600 then { u with revive := false } else u)
   else if k == 1 then { u with dot := none }
   else if k == 2 then { u with freeze := false }
   else if k == 4 then { u with bext := false }
